@@ -279,6 +279,21 @@ void intervalBody(vf::Ctx & c)
     if (nudge < 0) {base = std::nextafter(base, -std::numeric_limits<S>::infinity());}
     v[d] = base;
   }
+  // (drawn last) ends that are not dyadic: the hull is made of comparisons, so the expectation is exact for any ends,
+  // while arithmetic on the ends (centre +- half width, low + (high - low)) would only be exact for dyadic ones
+  if (c.s.flag("ends_are_arbitrary_reals", 1, 3)) {
+    static const char * an[5][3] = {{"ra_lo_x", "ra_lo_y", "ra_lo_z"}, {"ra_hi_x", "ra_hi_y", "ra_hi_z"}, {"rb_lo_x", "rb_lo_y", "rb_lo_z"},
+      {"rb_hi_x", "rb_hi_y", "rb_hi_z"}, {"rv_x", "rv_y", "rv_z"}};
+    for (size_t d = 0; d < D; ++d) {
+      S x1 = static_cast<S>(c.s.r(an[0][d], -1e3, 1e3)), y1 = static_cast<S>(c.s.r(an[1][d], -1e3, 1e3));
+      S x2 = static_cast<S>(c.s.r(an[2][d], -1e3, 1e3)), y2 = static_cast<S>(c.s.r(an[3][d], -1e3, 1e3));
+      lo1[d] = std::min(x1, y1); hi1[d] = std::max(x1, y1); lo2[d] = std::min(x2, y2); hi2[d] = std::max(x2, y2);
+      size_t vk = c.s.pick("rv_class", {1, 1, 1, 1, 2});
+      v[d] = vk == 0 ? lo1[d] : vk == 1 ? hi1[d] : vk == 2 ? lo2[d] : vk == 3 ? hi2[d] : static_cast<S>(c.s.r(an[4][d], -1.1e3, 1.1e3));
+    }
+    touching = nested = disjoint = false;
+    c.label("ends-are-arbitrary-reals");
+  }
   if (touching) {c.label("touching");}
   if (nested) {c.label("nested");}
   if (disjoint) {c.label("disjoint");}
@@ -333,6 +348,14 @@ void interval1Body(vf::Ctx & c)
   int64_t nudge = c.s.i("v_nudge", -1, 1);
   if (nudge > 0) {v = std::nextafter(v, std::numeric_limits<S>::infinity());}
   if (nudge < 0) {v = std::nextafter(v, -std::numeric_limits<S>::infinity());}
+  if (c.s.flag("ends_are_arbitrary_reals", 1, 3)) {
+    S x1 = static_cast<S>(c.s.r("ra_lo", -1e3, 1e3)), y1 = static_cast<S>(c.s.r("ra_hi", -1e3, 1e3));
+    S x2 = static_cast<S>(c.s.r("rb_lo", -1e3, 1e3)), y2 = static_cast<S>(c.s.r("rb_hi", -1e3, 1e3));
+    lo1 = std::min(x1, y1); hi1 = std::max(x1, y1); lo2 = std::min(x2, y2); hi2 = std::max(x2, y2);
+    size_t rk = c.s.pick("rv_class", {1, 1, 1, 1, 2});
+    v = rk == 0 ? lo1 : rk == 1 ? hi1 : rk == 2 ? lo2 : rk == 3 ? hi2 : static_cast<S>(c.s.r("rv", -1.1e3, 1.1e3));
+    c.label("ends-are-arbitrary-reals");
+  }
   c.label(scalarName<S>());
   c.nontrivial();
   c.commit();
